@@ -101,6 +101,7 @@ func (rs *runState) writeEvidence(exit int) {
 		"exhaustive":                    rs.nGen > 0 && rs.nGen == len(rs.traces),
 		"exit_code":                     exit,
 		"notes":                         rs.notes,
+		"per_source":                    rs.srcStats,
 	}
 	ev := map[string]any{
 		"property_id": p.ID,
